@@ -124,7 +124,9 @@ def run_universes(run, evaluator_path, plan, tier, seed, opts=None, chunk=200, m
             continue
         ranks, exh = plan_ranks(uname, tier, seed, qn, first.get(uname, 0))
         all_exh &= exh
-        jobs = [(evaluator_path, uname, c, opts) for c in pool.chunks(ranks, chunk)]
+        # small samples are cut into at least ~3 jobs per process so that every core is busy in the quick tier
+        eff_chunk = max(1, min(chunk, -(-len(ranks) // (3 * pool.NPROC))))
+        jobs = [(evaluator_path, uname, c, opts) for c in pool.chunks(ranks, eff_chunk)]
         st = {"evaluated": 0, "pass": 0, "fail_known": 0, "fail_new": 0, "skipped": 0, "nontrivial": 0, "exhaustive": exh, "size": get_universe(uname).size}
         for res in pool.run_jobs("vp.engine:eval_ranks", jobs):
             st["evaluated"] += res["n"]
